@@ -81,6 +81,11 @@ def _extract():
           r'for\s*\(\s*a\s*=\s*0\s*;\s*a\s*<\s*(\d+)\s*;\s*a\+\+\s*\)\s*if\s*\(\s*supla_rs_cfg\[a\]\.up\s*!=\s*\(\(void\s*\*\)\s*0\)\s*&&\s*supla_rs_cfg\[a\]\.down\s*!=\s*\(\(void\s*\*\)\s*0\)\s*&&\s*supla_rs_cfg\[a\]\.up->channel\s*==\s*new_value->ChannelNumber\s*\)', 'SETVALUE_RS_BOUND')
     bound(dc, r'supla_esp_channel_set_value\s*\(\s*TSD_SuplaChannelNewValue\s*\*\s*new_value\s*\)\s*\{',
           r'for\s*\(\s*a\s*=\s*0\s*;\s*a\s*<\s*(\d+)\s*;\s*a\+\+\s*\)\s*if\s*\(\s*supla_relay_cfg\[a\]\.gpio_id\s*!=\s*255\s*&&\s*new_value->ChannelNumber\s*==\s*supla_relay_cfg\[a\]\.channel\s*\)', 'SETVALUE_RELAY_BOUND')
+    for fn in ('supla_esp_gpio_rs_apply_new_config', 'supla_esp_gpio_fb_apply_new_config'):
+        bd = _body(rs, fn + r'\s*\(\s*int\s+channel_number\s*,[^)]*\)\s*\{')
+        if not bd or not re.search(r'newUp\s*=\s*supla_rs_cfg\[channel_number\]\.down\s*;\s*supla_relay_cfg_t\s*\*\s*newDown\s*=\s*supla_rs_cfg\[channel_number\]\.up\s*;\s*'
+                                   r'supla_rs_cfg\[channel_number\]\.down\s*=\s*newDown\s*;\s*supla_rs_cfg\[channel_number\]\.up\s*=\s*newUp\s*;', bd):
+            errs.append('motor swap of %s changed' % fn)
     g = _body(gp, r'void\s+supla_esp_gpio_init\s*\(\s*void\s*\)\s*\{')
     if not g or not re.search(r'supla_rs_cfg\[a\]\.stop_time\s*=\s*supla_esp_gpio_init_time\s*;', g): errs.append('gpio_init no longer stamps stop_time with the init time')
     return v, errs
